@@ -454,6 +454,58 @@ Definition m_selfinc : bytes := bs "include build.ninja
 ".
 Definition fm_selfinc := single root m_selfinc.
 
+Lemma parse_loop_S f total incl e lx ps :
+  parse_loop (S f) total incl e lx ps =
+  do (tok, lx1) <- p_read_token lx;
+  match tok with
+  | T_POOL => do (lx2, ps2) <- parse_pool total e lx1 ps; parse_loop f total incl e lx2 ps2
+  | T_BUILD => do (lx2, ps2) <- parse_edge total e lx1 ps; parse_loop f total incl e lx2 ps2
+  | T_RULE => do (lx2, ps2) <- parse_rule total e lx1 ps; parse_loop f total incl e lx2 ps2
+  | T_DEFAULT => do (lx2, ps2) <- parse_default total e lx1 ps; parse_loop f total incl e lx2 ps2
+  | T_IDENT =>
+    do (name, val, lx2) <- parse_let (lex_unread lx1);
+    let value := eval_in (ps_store ps) e val in
+    if bytes_eqb name s_ninja_required_version then
+      let (major, minor) := parse_version value in
+      if version_fatal major minor then P_err [] O E_fatal_version
+      else parse_loop f total incl e (lx_set_version lx2 major minor)
+                      (ps_with_store ps (add_binding (ps_store ps) e name value))
+    else parse_loop f total incl e lx2 (ps_with_store ps (add_binding (ps_store ps) e name value))
+  | T_INCLUDE =>
+    do (lx2, ps2) <- parse_include incl false e lx1 ps; parse_loop f total incl e lx2 ps2
+  | T_SUBNINJA =>
+    do (lx2, ps2) <- parse_include incl true e lx1 ps; parse_loop f total incl e lx2 ps2
+  | T_ERROR => lex_error lx1 (if lx_last_is_tab lx1 then E_tabs else E_lexing)
+  | T_TEOF => P_ok (lx1, ps)
+  | T_NEWLINE => parse_loop f total incl e lx1 ps
+  | T_COLON | T_EQUALS | T_INDENT | T_PIPE | T_PIPE2 | T_PIPEAT => lex_error lx1 (E_unexpected tok)
+  end.
+Proof. reflexivity. Qed.
+
+Definition selfinc_input : bytes := m_selfinc ++ [0].
+
+Lemma selfinc_first_token major minor checked :
+  p_read_token (lex_start root m_selfinc major minor checked) =
+  P_ok (T_INCLUDE, mkLexer root selfinc_input 8 0 major minor checked).
+Proof. vm_compute. reflexivity. Qed.
+
+Lemma selfinc_include (incl : loader) e ps major minor checked :
+  parse_include incl false e (mkLexer root selfinc_input 8 0 major minor checked) ps =
+  do ps2 <- incl (mkLexer root selfinc_input 19 19 major minor checked) root e ps;
+  P_ok (mkLexer root selfinc_input 20 19 major minor checked, ps2).
+Proof. vm_compute. destruct (incl _ _ _ _); reflexivity. Qed.
+
+(* the first statement of the self-including file hands the same file to the loader again *)
+Lemma selfinc_step (incl : loader) n total e ps major minor checked :
+  (forall plx e' ps', lx_file plx = root -> lx_line plx = 1%nat ->
+                      incl plx root e' ps' = P_err root 1 E_include_fuel) ->
+  parse_loop (S n) total incl e (lex_start root m_selfinc major minor checked) ps =
+  P_err root 1 E_include_fuel.
+Proof.
+  intros Hincl. rewrite parse_loop_S, selfinc_first_token. cbv iota beta.
+  rewrite selfinc_include. rewrite Hincl; [reflexivity|reflexivity|vm_compute; reflexivity].
+Qed.
+
 Lemma load_selfinc : forall f depth plx e ps,
   lx_file plx = root -> lx_line plx = 1%nat ->
   load f fm_selfinc depth (Some plx) root e ps = P_err root 1 E_include_fuel.
@@ -463,21 +515,18 @@ Proof.
   - cbn [load].
     change (fm_selfinc root) with (Some m_selfinc).
     destruct (nth depth (ps_subflags ps) default_flags) as [[major minor] checked].
-    set (lx0 := lex_start root m_selfinc major minor checked).
-    (* one statement: "include build.ninja" *)
-    assert (Hstep :
-      parse_loop (S (S (length m_selfinc))) (S (S (length m_selfinc)))
-                 (fun plx0 => load f fm_selfinc (S depth) (Some plx0)) e lx0 ps =
-      match load f fm_selfinc (S depth)
-                 (Some (mkLexer root (m_selfinc ++ [0]) 19 19 major minor checked)) root e ps with
-      | P_ok ps2 =>
-        parse_loop (S (length m_selfinc)) (S (S (length m_selfinc)))
-                   (fun plx0 => load f fm_selfinc (S depth) (Some plx0)) e
-                   (mkLexer root (m_selfinc ++ [0]) 20 19 major minor checked) ps2
-      | P_err f0 l0 c0 => P_err f0 l0 c0
-      end).
-    { unfold lx0. vm_compute. destruct (load f _ _ _ _ _ _); reflexivity. }
-    rewrite Hstep. rewrite IH; [reflexivity|reflexivity|vm_compute; reflexivity].
+    rewrite selfinc_step; [reflexivity|].
+    intros plx' e' ps' Hf' Hl'. apply IH; assumption.
+Qed.
+
+Lemma load_selfinc_S : forall f depth parent e ps,
+  load (S f) fm_selfinc depth parent root e ps = P_err root 1 E_include_fuel.
+Proof.
+  intros f depth parent e ps. cbn [load].
+  change (fm_selfinc root) with (Some m_selfinc).
+  destruct (nth depth (ps_subflags ps) default_flags) as [[major minor] checked].
+  rewrite selfinc_step; [reflexivity|].
+  intros plx' e' ps' Hf' Hl'. apply load_selfinc; assumption.
 Qed.
 
 (* Whatever depth budget is granted, the self-including manifest uses it up: the recursion
@@ -486,30 +535,13 @@ Qed.
 Theorem C13_include_self_refuted :
   forall fuel, eval_manifest fm_selfinc (S fuel) root = Err root 1 E_include_fuel.
 Proof.
-  intros fuel. unfold eval_manifest. cbn [load].
-  change (fm_selfinc root) with (Some m_selfinc).
-  change (nth 0 (ps_subflags initial_state) default_flags) with default_flags.
-  cbv iota beta.
-  assert (Hstep :
-    parse_loop (S (S (length m_selfinc))) (S (S (length m_selfinc)))
-               (fun plx0 => load fuel fm_selfinc 1 (Some plx0)) [O]
-               (lex_start root m_selfinc 0%Z 0%Z false) initial_state =
-    match load fuel fm_selfinc 1
-               (Some (mkLexer root (m_selfinc ++ [0]) 19 19 0%Z 0%Z false)) root [O] initial_state with
-    | P_ok ps2 =>
-      parse_loop (S (length m_selfinc)) (S (S (length m_selfinc)))
-                 (fun plx0 => load fuel fm_selfinc 1 (Some plx0)) [O]
-                 (mkLexer root (m_selfinc ++ [0]) 20 19 0%Z 0%Z false) ps2
-    | P_err f0 l0 c0 => P_err f0 l0 c0
-    end).
-  { vm_compute. destruct (load fuel _ _ _ _ _ _); reflexivity. }
-  rewrite Hstep. rewrite load_selfinc; [reflexivity|reflexivity|vm_compute; reflexivity].
+  intros fuel. unfold eval_manifest. rewrite load_selfinc_S. reflexivity.
 Qed.
 
 (* a non-recursive include needs fuel = nesting depth + 1 and no more *)
 Example include_fuel_sufficient_example :
   (exists g, eval_manifest fm_agree 2 root = Ok g) /\
-  eval_manifest fm_agree 1 root = Err root 16 E_include_fuel.
+  eval_manifest fm_agree 1 root = Err root 15 E_include_fuel.
 Proof. split; [eexists|]; vm_compute; reflexivity. Qed.
 
 (* ================= (d) rejections ================= *)
@@ -518,6 +550,11 @@ Definition rejects (text : bytes) (line : nat) (c : perr) : Prop :=
   (exists l' c', spec_manifest (single root text) 4 root = Err root l' c').
 
 Ltac reject := split; [vm_compute; reflexivity | eexists; eexists; vm_compute; reflexivity].
+Ltac rejall :=
+  match goal with
+  | |- rejects _ _ _ /\ _ => split; [reject | rejall]
+  | |- rejects _ _ _ => reject
+  end.
 
 Definition pre : string := "rule r
   command = c
@@ -533,20 +570,20 @@ build a: r
   rejects (bs (pre ++ "build d/../a: r
 build ./a: r
 ")) 5 E_multiple_rules.
-Proof. repeat split; reject. Qed.
+Proof. rejall. Qed.
 
 Theorem C12_rejects_unknown_rule : rejects (bs "build a: nosuch b
 ") 1 E_unknown_rule.
-Proof. reject. Qed.
+Proof. rejall. Qed.
 
 Theorem C12_rejects_unknown_pool :
   rejects (bs (pre ++ "build a: r
   pool = nosuch
 ")) 5 E_unknown_pool.
-Proof. reject. Qed.
+Proof. rejall. Qed.
 
 Theorem C12_rejects_duplicate_rule : rejects (bs (pre ++ pre)) 3 E_dup_rule.
-Proof. reject. Qed.
+Proof. rejall. Qed.
 
 Theorem C12_rejects_duplicate_pool :
   rejects (bs "pool p
@@ -557,7 +594,7 @@ pool p
   rejects (bs "pool console
   depth = 2
 ") 1 E_dup_pool.
-Proof. split; reject. Qed.
+Proof. rejall. Qed.
 
 Theorem C12_rejects_missing_command :
   rejects (bs "rule r
@@ -567,14 +604,14 @@ build a: r
   rejects (bs "rule r
   command =
 ") 3 E_expected_command.
-Proof. split; reject. Qed.
+Proof. rejall. Qed.
 
 Theorem C12_rejects_nonreserved_rule_variable :
   rejects (bs "rule r
   command = c
   cflags = x
 ") 3 E_unexpected_var.
-Proof. reject. Qed.
+Proof. rejall. Qed.
 
 Theorem C12_rejects_rspfile_without_content :
   rejects (bs "rule r
@@ -585,7 +622,7 @@ Theorem C12_rejects_rspfile_without_content :
   command = c
   rspfile_content = f
 ") 4 E_rspfile.
-Proof. split; reject. Qed.
+Proof. rejall. Qed.
 
 Theorem C12_rejects_bad_escape :
   rejects (bs "x = a$!b
@@ -594,19 +631,26 @@ Theorem C12_rejects_bad_escape :
 ") 1 E_bad_escape /\
   rejects (bs "build a$|b: phony
 ") 1 E_bad_escape.
-Proof. repeat split; reject. Qed.
+Proof. rejall. Qed.
 
+(* a tab-indented binding of a build statement is diagnosed as such; in a rule block the
+   same mistake is still rejected, but as a rule without command *)
 Theorem C12_rejects_tab_indentation :
+  rejects (bs ("build a: phony
+" ++ String (ascii_of_nat 9) "x = 1
+")) 2 E_tabs /\
   rejects (bs ("rule r
 " ++ String (ascii_of_nat 9) "command = c
-")) 2 E_tabs.
-Proof. reject. Qed.
+")) 2 E_expected_command /\
+  rejects (bs (String (ascii_of_nat 9) "x = 1
+")) 1 E_tabs.
+Proof. rejall. Qed.
 
 Theorem C12_rejects_dyndep_not_input :
   rejects (bs (pre ++ "build a: r b
   dyndep = dd
 ")) 5 E_dyndep_not_input.
-Proof. reject. Qed.
+Proof. rejall. Qed.
 
 Theorem C12_accepts_dyndep_input :
   exists g, eval_manifest (single root (bs (pre ++ "build a: r b || ./x/../dd
@@ -619,7 +663,7 @@ Theorem C12_rejects_empty_path :
 ")) 4 E_empty_path /\
   rejects (bs (pre ++ "build $undefined: r
 ")) 4 E_empty_path.
-Proof. split; reject. Qed.
+Proof. rejall. Qed.
 
 Theorem C12_rejects_bad_depth :
   rejects (bs "pool p
@@ -633,18 +677,18 @@ Theorem C12_rejects_bad_depth :
 ") 2 E_bad_depth /\
   rejects (bs "pool p
 ") 2 E_expected_depth.
-Proof. repeat split; reject. Qed.
+Proof. rejall. Qed.
 
 Theorem C12_rejects_unknown_default_target :
   rejects (bs (pre ++ "build a: r
 default b
 ")) 4 E_unknown_target.
-Proof. reject. Qed.
+Proof. rejall. Qed.
 
 Theorem C12_rejects_missing_include :
   rejects (bs "include nosuch.ninja
 ") 1 E_loading.
-Proof. reject. Qed.
+Proof. rejall. Qed.
 
 (* The diagnostics of semantic errors in a build statement carry the line of the token that
    FOLLOWS the statement (Lexer::Error uses last_token_, which PeekToken(INDENT) has already
@@ -682,4 +726,66 @@ Theorem C12_rejects_duplicate_output_any_path : forall lx st e global es l acc,
   add_outs lx st e global (es :: l) acc = lex_error lx E_multiple_rules.
 Proof.
   intros lx st e global es l acc He Ha Hg. cbn [add_outs]. rewrite He, Ha, Hg. reflexivity.
+Qed.
+
+(* ================= the fuel of the late lookup is never exhausted ================= *)
+From Coq Require Import Permutation.
+
+Lemma assoc_get_In {V} k (l : list (bytes * V)) v : assoc_get k l = Some v -> In k (map fst l).
+Proof.
+  induction l as [|[k' v'] l IH]; intros H; [discriminate H|].
+  cbn [assoc_get] in H. cbn [map fst In].
+  destruct (bytes_eqb_spec k k') as [->|Hne]; [left; reflexivity|right; apply IH; exact H].
+Qed.
+
+Lemma eval_es_l_no_fuel (look : bytes -> lres) es :
+  (forall v, look v <> L_fuel) -> eval_es_l look es <> L_fuel.
+Proof.
+  intros H. induction es as [|t es IH]; [discriminate|].
+  destruct t as [t|v]; cbn [eval_es_l].
+  - destruct (eval_es_l look es); congruence.
+  - specialize (H v). destruct (look v); try congruence.
+    destruct (eval_es_l look es); congruence.
+Qed.
+
+Lemma edge_lookup_fuel_rec st e esc : forall fuel lk var,
+  NoDup lk -> incl lk (map fst (r_bindings (e_rule e))) ->
+  (length (r_bindings (e_rule e)) + 1 <= fuel + length lk)%nat ->
+  edge_lookup fuel st e esc lk true var <> L_fuel.
+Proof.
+  induction fuel as [|f IH]; intros lk var Hnd Hincl Hlen.
+  - exfalso. pose proof (NoDup_incl_length Hnd Hincl) as Hl. rewrite map_length in Hl. lia.
+  - rewrite edge_lookup_S.
+    destruct (bytes_eqb var s_in || bytes_eqb var s_in_newline); [discriminate|].
+    destruct (bytes_eqb var s_out); [discriminate|].
+    cbn [andb]. destruct (mem_bytes var lk) eqn:Hmem; [discriminate|].
+    cbv zeta.
+    destruct (assoc_get var (own_bindings st e)); [discriminate|].
+    destruct (assoc_get var (r_bindings (e_rule e))) as [es|] eqn:Er; [|discriminate].
+    apply eval_es_l_no_fuel. intros v.
+    assert (Hnotin : ~ In var lk).
+    { intros Hin. apply mem_bytes_In in Hin. congruence. }
+    apply IH.
+    + apply (Permutation_NoDup (l := var :: lk)); [apply Permutation_cons_append|].
+      constructor; assumption.
+    + intros x Hx. apply in_app_or in Hx as [Hx|[<-|[]]]; [apply Hincl; exact Hx|].
+      eapply assoc_get_In. exact Er.
+    + rewrite app_length. cbn [length]. lia.
+Qed.
+
+Theorem C12_lookup_fuel_sufficient st e esc var :
+  edge_lookup (lookup_fuel e) st e esc [] false var <> L_fuel.
+Proof.
+  unfold lookup_fuel.
+  replace (length (r_bindings (e_rule e)) + 3)%nat with (S (length (r_bindings (e_rule e)) + 2)) by lia.
+  rewrite edge_lookup_S.
+  destruct (bytes_eqb var s_in || bytes_eqb var s_in_newline); [discriminate|].
+  destruct (bytes_eqb var s_out); [discriminate|].
+  cbn [andb]. cbv zeta.
+  destruct (assoc_get var (own_bindings st e)); [discriminate|].
+  destruct (assoc_get var (r_bindings (e_rule e))) as [es|] eqn:Er; [|discriminate].
+  apply eval_es_l_no_fuel. intros v. apply edge_lookup_fuel_rec.
+  - constructor.
+  - intros x [].
+  - cbn [length]. lia.
 Qed.
